@@ -1,13 +1,13 @@
 """Pilot for C10 (chain construction half): a transcription of scopes_for_owner / attach_resolution_context /
 the getitem traversal / Identifier.value as a state machine over the registry, compared with the implementation
 on random HISTORIES of accesses to the same parsed document (the registry persists between accesses: F-26)."""
-import sys, random, collections, itertools
-sys.path.insert(0, '/repo')
+import sys, random, collections, itertools, os, json
+from common import write_shards
 from nix_manipulator import parse
 from nix_manipulator.expressions import Identifier
 from nix_manipulator.expressions.set import AttributeSet
 from nix_manipulator.exceptions import ResolutionError
-R = random.Random(int(sys.argv[1])); N = int(sys.argv[2]); OUT = sys.argv[3]
+R = random.Random(int(sys.argv[1])); N = int(sys.argv[2]); outdir, prefix = sys.argv[3], sys.argv[4]
 NAMES = ['a', 'b', 'c', 'd']
 ids = itertools.count()
 class MSet:
@@ -119,10 +119,14 @@ while len(cases) < N:
     go(top, ())
     pm = '[' + '; '.join('(%d, [%s])' % (i, '; '.join(c)) for i, c in pos.items()) + ']'
     cases.append('(%s, %d, [%s], %s)' % (table(sets), top.id, '; '.join(hist), pm))
-with open(OUT, 'w') as f:
-    f.write('From Coq Require Import List Ascii String Arith Bool. Import ListNotations.\nFrom C Require Import ChainModel ChainProps ChainInv.\nOpen Scope string_scope.\n')
-    f.write('Definition cases : list (table * nat * list (list str * outcome) * pmap) := [\n' + ';\n'.join(cases) + '\n].\n')
-    f.write('Definition three (c : table * nat * list (list str * outcome) * pmap) := let \'(t, top, h, p) := c in (t, top, h).\n')
-    f.write('Definition in_domain (c : table * nat * list (list str * outcome) * pmap) : bool := let \'(t, top, h, p) := c in wfb t top p.\n')
-    f.write('Eval vm_compute in (List.length cases, bad 0 (map three cases), List.length (filter in_domain cases)).\n')
-print(dict(dist))
+HDR = 'From Coq Require Import List Ascii String Arith Bool. Import ListNotations.\nFrom C Require Import ChainModel ChainProps ChainInv.\nOpen Scope string_scope.\n'
+OK = ("Definition ok (c : table * nat * list (list str * outcome) * pmap) : bool := let '(t, top, h, p) := c in\n"
+      "  match bad 0 [(t, top, h)] with [] => true | _ => false end && (negb (wfb t top p) || match bad 0 [(t, top, map (fun ph => (fst ph, access_pure t top (fst ph))) h)] with [] => true | _ => false end).\n")
+write_shards(outdir, prefix, HDR, 'table * nat * list (list str * outcome) * pmap', OK, cases, 16)
+for fn in os.listdir(outdir):
+    if fn.startswith(prefix + '_') and fn.endswith('.v'):
+        open(os.path.join(outdir, fn), 'a').write('Eval vm_compute in ("rec_free_domain", List.length (filter (fun c => let \'(t, top, h, p) := c in wfb t top p) cases)).\n')
+json.dump({'stats': {'outcomes': dict(dist)}, 'keys': sorted(dist), 'distinct_count': len(set(cases)),
+           'rule': 'documents of nested plain/rec sets with lifted let layers; HISTORIES of 2-8 accesses src[k1][k2]...[.value] to the same parsed document (the registry persists between accesses); every answer compared with the registry state machine, and inside the rec-free domain also with the history-free lexical traversal',
+           'samples': [cases[0][:400]]}, open(os.path.join(outdir, prefix + '_summary.json'), 'w'))
+print(len(cases))
